@@ -794,6 +794,7 @@ func vrunMeta(t *testing.T, prop string) {
 		n = 440 // every corpus document
 	}
 	cnt := map[string]int{}
+	var metaKeys []string // corpus record emitted once, on the first classified failure
 	for _, in := range vmetaInputs(r, n) {
 		base := c.Match(in.data)
 		baseHyphen := vhyphenEOL(in.data)
@@ -826,7 +827,15 @@ func vrunMeta(t *testing.T, prop string) {
 			}
 			id := in.id + "_" + tr.name
 			v := map[string]interface{}{"what": vclip(what), "transform": tr.name, "input_hex": vclip(hx(in.data)), "transformed_hex": vclip(hx(data))}
-			o.verdictSig(prop, id, what == "", len(base.Matches) > 0, tr.name+":"+vhash(in.data), sig, v)
+			var needs []string
+			if sig != "" {
+				// a classification as a known finding stands only if the model of the unchanged code
+				// tokenizes both texts as the implementation does and matches them to the same results
+				// (the findings are behaviours of the unchanged code; a change elsewhere that happens to
+				// produce the same symptom on this input is something else)
+				needs = vanchor(o, c, &metaKeys, "kf_"+id, in.data, data)
+			}
+			o.verdictSigCorr(prop, id, what == "", len(base.Matches) > 0, tr.name+":"+vhash(in.data), sig, needs, v)
 			cnt[tr.name]++
 		}
 		if prop == "C06" {
@@ -854,7 +863,11 @@ func vrunMeta(t *testing.T, prop string) {
 				}
 			}
 			if len(got.Matches) > 0 {
-				o.verdictSig(prop, in.id+"_notice", what == "", true, "notice:"+vhash(data), sig, map[string]interface{}{"what": vclip(what), "line": pos + 1, "input_hex": vclip(hx(data))})
+				var needs []string
+				if sig != "" {
+					needs = vanchor(o, c, &metaKeys, "kf_"+in.id+"_notice", data)
+				}
+				o.verdictSigCorr(prop, in.id+"_notice", what == "", true, "notice:"+vhash(data), sig, needs, map[string]interface{}{"what": vclip(what), "line": pos + 1, "input_hex": vclip(hx(data))})
 				cnt["notice-reported"]++
 			}
 			// the same on the text with every long word hyphen-split, the notice as its last line:
@@ -879,12 +892,33 @@ func vrunMeta(t *testing.T, prop string) {
 						}
 					}
 				}
-				o.verdictSig(prop, in.id+"_hynotice", what == "", true, "hynotice:"+vhash(hdata), sig, map[string]interface{}{"what": vclip(what), "line": at, "input_hex": vclip(hx(hdata))})
+				var needs []string
+				if sig != "" {
+					needs = vanchor(o, c, &metaKeys, "kf_"+in.id+"_hynotice", hdata)
+				}
+				o.verdictSigCorr(prop, in.id+"_hynotice", what == "", true, "hynotice:"+vhash(hdata), sig, needs, map[string]interface{}{"what": vclip(what), "line": at, "input_hex": vclip(hx(hdata))})
 				cnt["notice-after-hyphen-split"]++
 			}
 		}
 	}
 	o.stat(prop, map[string]interface{}{"transform_applications": cnt})
+}
+
+// vanchor emits, for each text, a `tok` record and a `match` record (corpus "full08", emitted on first
+// use) and returns their ids: the needs_corr list of a classified failure.
+func vanchor(o *vout, c *Classifier, keys *[]string, id string, texts ...[]byte) []string {
+	if *keys == nil {
+		*keys = vcorpusRecord(o, "full08", c)
+	}
+	var needs []string
+	for i, t := range texts {
+		tid := fmt.Sprintf("%s_t%d", id, i)
+		mid := fmt.Sprintf("%s_m%d", id, i)
+		vtokCase(o, "C03", tid, t, true)
+		vmatchCase(o, c, "full08", *keys, mid, t, true)
+		needs = append(needs, tid, mid)
+	}
+	return needs
 }
 
 // vclassifyMeta assigns a known-finding signature to a failing metamorphic case, or "".
@@ -1640,6 +1674,8 @@ func TestVerifC11(t *testing.T) {
 		inputs = append(inputs, vinput{id: fmt.Sprintf("vdots%d", i), data: []byte(t)})
 	}
 	cnt := 0
+	var c11Keys []string
+	var ca *Classifier
 	for _, in := range inputs {
 		base := c.Match(in.data)
 		norm := c.Normalize(in.data)
@@ -1684,10 +1720,20 @@ func TestVerifC11(t *testing.T) {
 			what = fmt.Sprintf("Match(in): %s ; Match(Normalize(in)): %s", vlicOnly(base, true), vlicOnly(again, true))
 		}
 		sig = ""
+		var needs []string
 		if what != "" {
 			sig = vclassifyC11(c, norm, base)
+			if sig != "" {
+				// anchored by the model: the input's and the Normalize output's tokens (stage tok), the
+				// Normalize output itself (stage norm) and both Match results (stage match)
+				if ca == nil {
+					ca = vclassifier(0.8) // a classifier whose dictionary no Normalize call has extended
+				}
+				needs = vanchor(o, ca, &c11Keys, "kf_"+in.id, in.data, norm)
+				needs = append(needs, "N"+needs[0])
+			}
 		}
-		o.verdictSig("C11", in.id+"_rematch", what == "", len(base.Matches) > 0, "rematch:"+vhash(in.data), sig, map[string]interface{}{"what": vclip(what), "input_hex": vclip(hx(in.data))})
+		o.verdictSigCorr("C11", in.id+"_rematch", what == "", len(base.Matches) > 0, "rematch:"+vhash(in.data), sig, needs, map[string]interface{}{"what": vclip(what), "input_hex": vclip(hx(in.data))})
 		cnt++
 	}
 	o.stat("C11", map[string]interface{}{"inputs": cnt})
